@@ -35,7 +35,7 @@ Entries == {"prod", "legacy"}
 -----------------------------------------------------------------------------
 \* C01: (a) every target of <= K segments over the core alphabet, on the worlds of depth <= 2 (all link shapes);
 \*      (b) climbing skeletons (".."^j name, with detours) crossed with the decoration dimensions, on all worlds
-CoreTok == {"..", ".", "", "d", "f.txt", "nx", "%2e%2e", "s0", "s1", "s3", "o", "up", "upd", "root", "in"}
+CoreTok == {"..", ".", "", "d", "f.txt", "nx", "%2e%2e", "s0", "s1", "s3", "o", "up", "upd", "root", "in", "..data"}
 SegSeqs(Tok, k) == UNION {[1..n -> Tok] : n \in 0..k}
 Ups(j) == [i \in 1..j |-> ".."]
 SecretNames == {"s0", "s1", "s2", "s3", "f.txt"}
@@ -45,6 +45,10 @@ Skeletons ==
     \cup {<<"d">> \o Ups(j) \o <<nm>> : j \in 2..4, nm \in SecretNames}
     \cup {<<".", "">> \o Ups(j) \o <<"">> \o <<nm>> : j \in 1..3, nm \in SecretNames}
     \cup {<<"d", "..", "..", "root", "..", nm>> : nm \in SecretNames}
+    \* through a directory whose name contains ".." without being it (the first ".." of the path is not the climbing one)
+    \cup {<<dn>> \o Ups(j) \o <<nm>> : dn \in {"..data", "v1..v2", "..."}, j \in 2..4, nm \in SecretNames}
+    \cup {<<"d", "a..">> \o Ups(j) \o <<nm>> : j \in 3..4, nm \in SecretNames}
+    \cup {<<"..data", "..", "f.txt">>, <<"...", "zqzq.txt">>, <<"d", "a..", "zqzq.txt">>, <<"..data", "..", "..", "o", "s3">>}
     \cup {<<"up">>, <<"upd", "s3">>, <<"upd", "..", "s2">>, <<"upd", "..", "s1">>, <<"in">>, <<"in", "..", "..", "s1">>,
           <<"%2e%2e", "s1">>, <<"%2E%2E", "s1">>, <<"..%2f", "s1">>, <<"..%2fs1">>, <<"%2e%2e%2fs1">>, <<"..;", "s1">>,
           <<"..", "..", "l2", "s2">>, <<"..", "l2", "..", "s1">>,
@@ -137,6 +141,11 @@ C03Cases(u) ==
     \cup {Req(31, "prod", "GET", "/", <<RangeName(5)>>, "", "", Rng([j \in 1..n |-> FL(Num((j - 1) % 10), Num((j - 1) % 10))]), "") :
             n \in (IF K >= 3 THEN {4, 8, 9, 16, 17, 32, 33, 64, 65, 100, 129} ELSE {9, 17, 33, 65})
                    \cup {255, 256, 257, 1023, 1024, 1025, 2000}}       \* long lists: judged by status, framing and part count (Static!BigList)
+    \* slices longer than any plausible chunk size (1, 4, 8 MiB and one byte more or less; 10 and 12 MB), none reaching the last byte
+    \cup {Req(32, "prod", "GET", "/", <<"big12m.bin">>, "", "", Rng(<<FL(Num(lo), Num(lo + n - 1))>>), "") :
+            lo \in {0, 3}, n \in {1048576, 1048577, 4194304, 4194305, 8388607, 8388608, 8388609, 10000000, 12582900}}
+    \* the product of file length and number of ranges beyond 2^31 and 2^32
+    \cup {Req(32, "prod", "GET", "/", <<"big2m.bin">>, "", "", Rng([j \in 1..n |-> FL(Num((j - 1) % 10), Num((j - 1) % 10))]), "") : n \in {1100, 2000}}
     \cup UNION {{Req(21, "prod", "GET", "/", sg[1], "", "", Rng(ss), "") : ss \in {<<x>> : x \in Reduced(sg[2])} \cup {<<FL(Num(0), Num(1)), Su(Num(2))>>}}
                : sg \in {<<<<"docs">>, 8192>>, <<<<"docs", "">>, 8192>>, <<<<"page">>, 4096>>, <<<<"lnk">>, 256>>, <<<<"ldir", "readme.md">>, 4095>>,
                           <<<<"docs", "deep", "deep">>, 5>>}}
@@ -149,6 +158,12 @@ C09Cases(u) ==
     UNION {{[Req(W.id, e, "GET", "/", s, "", "", rg, org) EXCEPT !.preflight = pf] :
               e \in Entries, s \in Servable(W),
               rg \in {NoRange, Rng(<<FL(Num(0), Num(0))>>)}, org \in {"", "https://a.example"}, pf \in {FALSE, TRUE}}
+           : W \in {MixWorld(21, FALSE), FlatWorld(23)}}
+    \* the same resource spelt with a query or a fragment (cache-busting suffixes, a query that ends like another media type):
+    \* every equivalent spelling applies to every method
+    \cup UNION {{Req(W.id, e, "GET", "/", s, qf[1], qf[2], rg, "") :
+              e \in Entries, s \in Servable(W), qf \in {<<"?v=3", "">>, <<"", "#top">>, <<"?a=b&c=d.txt", "">>, <<"?x.png", "#y.css">>},
+              rg \in {NoRange, Rng(<<FL(Num(0), Num(0))>>)}}
            : W \in {MixWorld(21, FALSE), FlatWorld(23)}}
     \* every kind of range-spec with HEAD and OPTIONS (open-ended, suffix, two specs, beyond the end), on one tree, production entry
     \cup {Req(21, "prod", "GET", "/", s, "", "", rg, "") :
@@ -174,7 +189,7 @@ Cases == CASE Mode = "c02" -> C02Cases(0)
            [] Mode = "c03" -> C03Cases(0)
            [] Mode = "c09" -> C09Cases(0)
 
-UsedWorlds == CASE Mode = "c01" -> C01Worlds [] Mode = "c02" -> C02Worlds [] Mode = "c03" -> {RangeWorld, MixWorld(21, FALSE)}
+UsedWorlds == CASE Mode = "c01" -> C01Worlds [] Mode = "c02" -> C02Worlds [] Mode = "c03" -> {RangeWorld, MixWorld(21, FALSE), BigWorld}
                 [] Mode = "router" -> RouterWorlds
                 [] Mode = "c09" -> {MixWorld(21, FALSE), FlatWorld(23)}
 
